@@ -36,5 +36,18 @@ package main
 
 //@ global names invariant len(names) == 8
 
+// The writer receives the rendered bytes; it holds no reference into the entries being rendered
+// (assumed: they live in memory allocated by renderResult itself).
+//@ iface io.Writer.Write
+//@   modifies nothing
+
+// Every value of every stream becomes one entry; entries are written one per line in timestamp
+// order (C15), which makes the output independent of the order of streams in the result (C18).
 //@ func renderResult
 //@   nopanic
+//@   capture w = call(stdout.Write, 0)
+//@   loop 1 body_ensures[every-value-becomes-one-entry] len(entries) == head(len(entries)) + 1 && same(entries[len(entries)-1].LogEntry, stream.Values[rangeindex]) &&
+//@       entries[len(entries)-1].container == stream.Stream.Value["container"]
+//@   loop 2 invariant[written-in-time-order] forall(0, len(entries)-1, func(j int) bool { return entries[j].T <= entries[j+1].T })
+//@   loop 2 invariant rangeindex+1 <= len(entries)
+//@   loop 2 body_ensures[one-write-per-entry] w_called && w_r1 == nil
